@@ -188,6 +188,13 @@ def shard_b(sh):
     def strip(lines):
         return [l for l in lines if l.startswith('dump ') or l.startswith('out ') or l.startswith('r parse_buf')]
 
+    # an instance created after its siblings were worked on must be a pristine copy of the declared template
+    fresh_ops = ['note a later instance', 'cb_fail 0', 'parse_buf A ' + enc(b'm { } km { }'), 'dump A/m.2 7', 'dump A/km.2 7', 'print A/m.2']
+    pristine = None
+    if mode != 'contexts':
+        r0 = drv.run([Case(list(setup) + fresh_ops)])[0]
+        pristine = [l for l in r0.lines if l.startswith('dump ') or l.startswith('out ')][-3:]
+
     for (s1, s2) in pairs:
         if time.time() > deadline:
             st.complete = False
@@ -208,6 +215,8 @@ def shard_b(sh):
             for (side, k) in order:
                 lines += streams[side][k]
             lines += ['note observe'] + obs[0] + ['note observe'] + obs[1]
+            if pristine is not None:
+                lines += fresh_ops
             cases.append(Case(lines))
         res = drv.run(cases)
         bad = False
@@ -222,6 +231,8 @@ def shard_b(sh):
         # observations = lines after the last setup answer; parse results of the streams are part of them
         def tail(r, side, both):
             dumps = [l for l in r.lines if l.startswith('dump ') or l.startswith('out ')]
+            if both and pristine is not None:
+                dumps = dumps[:-3]
             n = len(obs[0])
             if not both:
                 return dumps[-n:]
@@ -232,6 +243,11 @@ def shard_b(sh):
             got = (tail(r, 0, True), tail(r, 1, True))
             st.outcome('\n'.join(got[0] + got[1]))
             st.nontriv('%s|%s|%s' % (mode, s1, s2))
+            if pristine is not None:
+                later = [l for l in r.lines if l.startswith('dump ') or l.startswith('out ')][-3:]
+                if later != pristine:
+                    st.violation('later-instance-inherits-sibling-state', 'schema B1 %s\n%s' % (B1.spec(), c.script()), '\n'.join(pristine), '\n'.join(later))
+                    continue
             for side in (0, 1):
                 if got[side] != want[side]:
                     st.violation('%s-influenced-by-the-other:%s' % ('context' if mode == 'contexts' else 'instance', mode),
